@@ -8,7 +8,7 @@
     module accounts, and block boundaries running the end blocker) from ANY genesis ledger in
     which the farm account is empty — no bound on the number of pools, farmers, steps or on
     amounts. *)
-From Irismod Require Import Farm.Model Farm.Check Farm.Proofs Farm.Sound.
+From Irismod Require Import Farm.Model Farm.Check Farm.Proofs Farm.Sound Farm.SoundTrace.
 
 (** In every reachable state the stakes recorded for the farmers of a pool add up to the pool's
     recorded total. *)
@@ -109,3 +109,28 @@ Proof.
   - unfold c05_hist. repeat constructor; try discriminate.
   - vm_compute. reflexivity.
 Qed.
+
+(** MODEL PASSES CHECK.  For every history (messages by the four observed actors, block boundaries) from every
+    genesis whose balances list is the canonical one the harness writes, the checker [check_case_C05], fed the trace the
+    MODEL itself produces, answers (-1, -1, 0): no divergence, no clause.  So the check can raise an alarm only on an
+    implementation that does not agree with the model. *)
+Theorem model_passes_check_C05 :
+  forall (h0 : Z) (bl : list (acct * list Z)) (steps : list step) (fair : list (Z * Z * Z * Z * Z)),
+    genesis_ok (ledger_of bl) h0 -> bals_of (ledger_of bl) = bl ->
+    Forall valid_step steps -> Forall actor_step steps ->
+    check_case_C05 (model_case h0 bl steps fair) = (-1, -1, 0).
+Proof. exact model_passes_check_C05_lemma. Qed.
+Print Assumptions model_passes_check_C05.
+
+(** its hypotheses hold of the harness' kind of genesis: every observed account listed, module accounts empty *)
+Example c05_model_case_nonvacuous :
+  let bl := [(0, [1000; 1000; 1000; 1000]); (1, [1000; 1000; 1000; 1000]); (2, [5; 0; 7; 1000]); (3, [0; 0; 0; 0]);
+             (FARM, [0; 0; 0; 0]); (COLL, [0; 0; 0; 0]); (FEEC, [0; 0; 0; 9]); (BURN, [0; 0; 0; 0])] in
+  genesis_ok (ledger_of bl) 2 /\ bals_of (ledger_of bl) = bl
+  /\ Forall actor_step c05_hist
+  /\ check_case_C05 (model_case 2 bl c05_hist []) = (-1, -1, 0).
+Proof.
+  cbv zeta. split; [apply genesis_ok_by_entries; [lia|vm_compute; reflexivity]|]. split; [vm_compute; reflexivity|].
+  split; [unfold c05_hist; repeat (apply Forall_cons; [simpl; tauto|]); apply Forall_nil|vm_compute; reflexivity].
+Qed.
+
